@@ -48,6 +48,29 @@ theorem C46_unevaluated_update_keeps_shares (A : Arith) (s : State) (st : Option
   have := lapsed_shares A s st
   exact ⟨_, action_skip A s st i r sp p hev, this.1, this.2.1, this.2.2.1, this.2.2.2.1, this.2.2.2.2.1⟩
 
+/-- when is an `action()` evaluated: both the doer's previous stamp and the store's stamp are
+numbers and their difference (in the controller's arithmetic) is greater than zero -/
+theorem C46_evaluated_iff (A : Arith) (s : State) (st : Option Num) :
+    evaluated A s st = true ↔
+      ∃ last now, s.stamp = some last ∧ st = some now ∧ gt (A.sub now last) zero = true := by
+  unfold evaluated lapseOf updateLapse
+  cases hs : s.stamp with
+  | none => simp; decide
+  | some last =>
+    cases st with
+    | none => simp; decide
+    | some now =>
+      simp only [Option.some.injEq, exists_and_left, exists_eq_left']
+      unfold pymax
+      by_cases hg : gt (A.sub now last) zero = true
+      · simp only [hg, if_true, iff_true]
+        have hn := lt_not_nan (a := zero) (b := A.sub now last) hg
+        unfold gt at hg
+        have hz : zero.isNan = false := rfl
+        simp only [le, hn.2, hz, hg, Bool.not_false, Bool.not_true, Bool.and_false, Bool.not_false]
+      · simp only [hg]
+        simp; decide
+
 /-- non-vacuity: the first action (no previous stamp) is not evaluated, the next one is -/
 example : evaluated exactArith init (some (.fin 0)) = false ∧
     evaluated exactArith { init with stamp := some (.fin 0) } (some (.fin (1 / 2))) = true := by
@@ -250,6 +273,24 @@ theorem C46_error_is_wrap2 (s s' : State) (st : Option Num) (i r sp : Num) (p : 
 /-- non-vacuity: heading control across the wrap: input 350, set point 20 → error -30 -/
 example : wrap2 exactArith (exactArith.sub (.fin 350) (.fin 20)) (.fin 180) = .ok (.fin (-30)) := by
   decide +kernel
+
+/-- **Binary64 arithmetic: the error still never exceeds the wrap.**  With every operation
+rounded to nearest, finite input / set point and a wrap that is a non-zero binary64 value, the
+error share holds C43's rounded `wrap2F` of the rounded difference and lies in `[-|wrap|, |wrap|]`
+(C43_float_wrap2_range: rounding can reach an end of the range, never pass it). -/
+theorem C46_error_within_wrap_binary64 (s s' : State) (st : Option Num) (i r sp : Num) (p : Parm)
+    (a b w : Rat) (hev : evaluated floatArith s st = true) (hi : i = .fin a)
+    (hb : rspEff floatArith s sp p = .fin b) (hw : p.wrap = .fin w) (hfl : Wrap.rn w = w)
+    (hw0 : w ≠ 0) (h : action floatArith s st i r sp p = .ok s') :
+    s'.e = .fin (Wrap.wrap2F (Wrap.rn (a - b)) w) ∧
+    -(Wrap.pabs w) ≤ Wrap.wrap2F (Wrap.rn (a - b)) w ∧ Wrap.wrap2F (Wrap.rn (a - b)) w ≤ Wrap.pabs w := by
+  have he := C46_error_is_wrap2_generic floatArith s s' st i r sp p hev h
+  rw [hb, hw, hi] at he
+  have hsub : floatArith.sub (.fin a) (.fin b) = .fin (Wrap.rn (a - b)) := by
+    simp [floatArith, xsub, xadd, Num.neg, rnN, Rat.sub_eq_add_neg]
+  rw [hsub, wrap2_float] at he
+  injection he with he
+  exact ⟨he.symm, Wrap.C43_float_wrap2_range _ w hfl hw0⟩
 
 /-! ## no exception -/
 
